@@ -42,7 +42,7 @@ struct Enumerate<'a> {
 }
 
 fn input_points<F: Flt>(l: &Layout, mode: Mode) -> Vec<Vec<Parts<F>>> {
-    let pts: &[(f64, f64)] = if mode == Mode::Quick { &[(0.75, -1.25), (2.5, 0.3125)] } else { &[(0.75, -1.25), (2.5, 0.3125), (-0.625, 1.25)] };
+    let pts: &[(f64, f64)] = if mode == Mode::Quick { &[(0.75, -1.25), (2.5, 0.3125), (0.0, 0.75)] } else { &[(0.75, -1.25), (2.5, 0.3125), (-0.625, 1.25), (0.0, 0.75)] };
     pts.iter()
         .map(|(a, b)| {
             let x0 = few_assignments::<F>(l, *a, 1, 0).remove(0);
@@ -101,6 +101,7 @@ fn universe(tier: Tier, v: &mut impl Visitor) {
     v.visit::<f64, DualVec<f64, f64, Const<2>>>(Dims::n(2));
     v.visit::<f64, Dual2Vec<f64, f64, Const<2>>>(Dims::n(2));
     v.visit::<f64, Dual<Dual64, f64>>(Dims::NONE);
+    v.visit::<f64, Dual2<Dual2_64, f64>>(Dims::NONE);
     if tier == Tier::Thorough {
         v.visit::<f64, HyperDualVec<f64, f64, Const<2>, Const<2>>>(Dims::mn(2, 2));
         v.visit::<f32, Dual3_32>(Dims::NONE);
